@@ -108,8 +108,10 @@ CHECK_DEADLOCK FALSE
 """
 
 
-def _judge_batch(trace_module, path, n, workdir, tag, consts_cfg):
-    r = run_tlc(trace_module, JUDGE_CFG + consts_cfg, workdir, tag, env={"TRACE_FILE": path},
+def _judge_batch(trace_module, path, n, workdir, tag, consts_cfg, env_extra=None):
+    env = {"TRACE_FILE": path}
+    env.update(env_extra or {})
+    r = run_tlc(trace_module, JUDGE_CFG + consts_cfg, workdir, tag, env=env,
                 workers=1, heap="3g", gc_threads=2, timeout=3600)
     fails = tlaval.extract_tuples(r["out"], "FAILED")
     stats = tlaval.extract_tuples(r["out"], "STAT")
@@ -122,7 +124,7 @@ def _judge_batch(trace_module, path, n, workdir, tag, consts_cfg):
 
 
 def judge(trace_module: str, events: list, workdir: Path, tag: str, *, batch=3000,
-          consts_cfg: str = "", par=None):
+          consts_cfg: str = "", par=None, env_extra=None):
     """Validate recorded events against a trace specification.  Returns
     (failures, stats) where failures is a list of tuples ("FAILED", id, clause[, dev])."""
     workdir.mkdir(parents=True, exist_ok=True)
@@ -149,7 +151,7 @@ def judge(trace_module: str, events: list, workdir: Path, tag: str, *, batch=300
         jobs.append((str(path), len(chunk), f"{tag}.{b}"))
     fails, stats = [], []
     with cf.ThreadPoolExecutor(max_workers=par or NCPU) as ex:
-        futs = [ex.submit(_judge_batch, trace_module, p, n, workdir, t, consts_cfg)
+        futs = [ex.submit(_judge_batch, trace_module, p, n, workdir, t, consts_cfg, env_extra)
                 for p, n, t in jobs]
         for fu in futs:
             f, s, _ = fu.result()
